@@ -19,6 +19,7 @@ pub static TEXTS: [&str; 5] = ["Custom error A", "Device-specific fault", "Overr
 pub fn custom_error(code: i16) -> Error {
     // a few codes make the handler return one of the library's own (standard) errors
     match code {
+        -113 => Error::UndefinedHeader,
         -200 => Error::ExecutionError,
         -220 => Error::ParameterError,
         -221 => Error::SettingsConflict,
